@@ -28,30 +28,7 @@ def run(ctx):
         return
     n = ctx.scale(500, 8000)
     pool = runlib.program_pool(ctx, n, n_unknown=ctx.scale(30, 200), flags_for_guards=(0, FLAG["NEW_COST_MODEL"]))
-    # directed: a GC-candidate operator (apply, opcode 2) whose result is a post-checkpoint HEAP atom
-    # with small-integer bytes (made by concat / substr), after >= 1 KiB of garbage so that the
-    # restore is worth taking: maybe_restore_with_node clones it through new_atom and must re-credit
-    # the counters
-    from gen_prog import op, q, i2a
-    junk = op(14, q(bytes([0x61]) * 700), q(bytes([0x62]) * 700))
-    for E in (op(14, q(i2a(1)), q(i2a(2))), op(14, q(b"\x00"), q(b"\x80")), op(14, q(b""), q(b"")),
-              op(12, q(b"\x01\x02\x03\x04\x05\x06\x07\x08\x09"), q(b""), q(i2a(1))),
-              op(12, q(b"\x01\x02\x03\x04\x05\x06\x07\x08\x09"), q(i2a(2)), q(i2a(2))),
-              op(14, q(bytes([7]) * 30), q(bytes([8]) * 30)), op(16, q(i2a(1)), q(i2a(2)))):
-        body = op(5, op(4, E, junk))
-        pool.append((gen.tt(op(2, q(body), q(b""))), gen.tt(b""), "directed-gc-small"))
-        pool.append((gen.tt(op(4, op(2, q(body), q(b"")), op(2, q(body), q(b"")))), gen.tt(b""), "directed-gc-small"))
-    # both evaluation orders (arguments are evaluated last to first): the kept value made BEFORE the
-    # garbage, from operands that predate the checkpoint (the environment: a heap atom that is the most
-    # recent allocation when the run starts), and AFTER it
-    envs = [b"seeded-heap-atom-env", b"\x00\x05", bytes(range(60)), b"\x01\x02\x03\x04\x05"]
-    junk2 = op(23, q(i2a(1)), q(i2a(9000)))                       # lsh: a 1126-byte number
-    for env in envs:
-        for E in (op(14, i2a(1), q(b"x")), op(14, i2a(1), i2a(1)), op(14, q(b""), i2a(1), q(b"yz")), op(12, i2a(1), q(i2a(1))),
-                  op(12, i2a(1), q(b""), q(i2a(2))), op(14, op(12, i2a(1), q(i2a(1))), q(b"tail")), op(11, i2a(1)), i2a(1)):
-            for J in (junk, junk2):
-                pool.append((gen.tt(op(2, q(op(6, op(4, J, E))), i2a(1))), gen.tt(env), "directed-gc-order"))
-                pool.append((gen.tt(op(2, q(op(5, op(4, E, J))), i2a(1))), gen.tt(env), "directed-gc-order"))
+    pool += gen_prog.gc_directed_programs()
     pairs = []
     for p, e, tag in pool:
         f = runlib.pick_flags(r, tag, 0.15, exclude=FLAG["ENABLE_GC"])
